@@ -130,6 +130,21 @@ def handleC15 (r : Req) : R String := do
       let rs ← asFes (← need r "rs")
       let πs := List.zipWith (fun w rv => (⟨w, rv⟩ : PST.Proof (Fp p))) ws rvs
       pure <| exceptReply (PST.batchCheck vk cs zs vs πs rs) fun b => [("b", vBool b)]
+  | "c15.batch_check_q" =>
+    -- grouped form: per point label (sorted) the commitments `css[k]` and values `vss[k]`
+    match ← keys (p := p) r with
+    | .error e => pure (errReply e)
+    | .ok (_, vk) =>
+      let css ← asFess (p := p) (← need r "css")
+      let vss ← asFess (p := p) (← need r "vss")
+      let zs ← asFess (← need r "zs")
+      let ws ← asFess (← need r "ws")
+      let rvs ← (← asList (← need r "rvs")).mapM asOptFe
+      let xis ← asFes (← need r "xis")
+      let rs ← asFes (← need r "rs")
+      let πs := List.zipWith (fun w rv => (⟨w, rv⟩ : PST.Proof (Fp p))) ws rvs
+      pure <| exceptReply (PST.batchCheckGroups vk (List.zip css vss) zs πs xis rs) fun b =>
+        [("b", vBool b)]
   | _ => .error "unknown-op"
 
 /-- `none` = not an op of this module -/
